@@ -45,7 +45,7 @@ func ruleC12R2(r *Run) {
 			// the index starts at 0, advances by one, bounded by len(s.rec.data)
 			if l != nil {
 				start, step, bound := false, false, false
-				for _, b := range fn.Blocks {
+				for _, b := range p.body(fn) {
 					for _, in := range b.Instrs {
 						if st, ok := in.(*ssa.Store); ok && "&"+idx == p.expr(st.Addr) || ok && p.expr(st.Addr) == "&"+idx {
 							if c, isC := constInt(p.resolve(st.Val)); isC && c == 0 && !l.Body[b] {
@@ -85,7 +85,7 @@ func ruleC12R2(r *Run) {
 			// the closure writes the candidate value into that same word of a copy
 			if cl := p.Fn("(*shrinker).minimizeBlocks$1"); cl != nil {
 				ok := false
-				for _, b := range cl.Blocks {
+				for _, b := range p.body(cl) {
 					for _, in := range b.Instrs {
 						if st, isSt := in.(*ssa.Store); isSt {
 							if ia, isIA := st.Addr.(*ssa.IndexAddr); isIA && p.expr(st.Val) == "$u" && strings.HasPrefix(p.expr(ia.X), "builtin:append(nil, $s.rec.data") {
@@ -110,7 +110,7 @@ func ruleC12R2(r *Run) {
 			if c, ok := p.Types.Scope().Lookup("small").(*types.Const); ok {
 				smallStr = c.Val().ExactString()
 			}
-			for _, b := range fn.Blocks {
+			for _, b := range p.body(fn) {
 				if iff, ok := b.Instrs[len(b.Instrs)-1].(*ssa.If); ok {
 					rl := p.relOf(guard{Cond: iff.Cond, Pol: true})
 					if bigEntry != nil {
@@ -139,7 +139,7 @@ func ruleC12R2(r *Run) {
 				}
 				// the minimiser starts from u with the caller's condition
 				okInit := 0
-				for _, b := range fn.Blocks {
+				for _, b := range p.body(fn) {
 					for _, in := range b.Instrs {
 						if st, ok := in.(*ssa.Store); ok {
 							if fa, ok := st.Addr.(*ssa.FieldAddr); ok && p.fieldAddrOwner(fa) == "minimizer" {
@@ -169,7 +169,7 @@ func ruleC12R2(r *Run) {
 	// (c) minimizer.accept
 	if fn := r.MustFn("(*minimizer).accept"); fn != nil {
 		n := 0
-		for _, b := range fn.Blocks {
+		for _, b := range p.body(fn) {
 			for _, in := range b.Instrs {
 				st, ok := in.(*ssa.Store)
 				if !ok {
